@@ -164,6 +164,13 @@ class eap(packet_base):
 
         self.hdr_len = self.length
         self.payload_len = 0
+
+        if (self.code in (self.REQUEST_CODE, self.RESPONSE_CODE)
+            and dlen < self.MIN_LEN + 1):
+            self.msg('(eapol parse) warning EAP request/response without '
+                     'a type byte: data len %u' % (dlen,))
+            return
+
         self.parsed = True
 
         if self.code == self.REQUEST_CODE:
